@@ -176,7 +176,7 @@ func (g *tgen) genNode(ps []pend, cont string, depth int, allowPass bool) *tnode
 		if okStatic {
 			// what will arrive, if it is a map at all
 			probe := &rres{}
-			v, _ := probe.deliver(ps, tMap)
+			v := probe.deliver(ps, tMap).V
 			if m, ok := v.(map[string]any); ok && !probe.stopped() {
 				keyed = true
 				ks := mon.SortedKeys(m)
@@ -215,7 +215,7 @@ func (g *tgen) genNode(ps []pend, cont string, depth int, allowPass bool) *tnode
 		var v any
 		if n.InKey != "" {
 			probe2 := &rres{}
-			m, _ := probe2.deliver(ps, tMap)
+			m := probe2.deliver(ps, tMap).V
 			if mm, ok := m.(map[string]any); ok {
 				v = mm[n.InKey]
 			}
@@ -223,7 +223,7 @@ func (g *tgen) genNode(ps []pend, cont string, depth int, allowPass bool) *tnode
 				v = g.genInput(n.In)
 			}
 		} else {
-			v, _ = probe.deliver(ps, n.In)
+			v = probe.deliver(ps, n.In).V
 			if probe.stopped() {
 				v = g.genInput(n.In)
 			}
@@ -249,7 +249,7 @@ func (g *tgen) genSpec(cont string, inTy ty, in any, depth int) *tspec {
 	if depth > 0 {
 		nseg = r.Range(1, 2)
 	}
-	cur := []pend{{in, inTy, false}}
+	cur := []pend{{in, inTy, false, inTy}}
 	lastKind := "start"
 	for i := 0; i < nseg; i++ {
 		kind := "node"
@@ -300,7 +300,7 @@ type prefixEval struct {
 // the next consumer (stand-ins of the declared types if the evaluation stops on the way).
 func evalSpecPrefix(s *tspec, in any) prefixEval {
 	r := &rres{}
-	cur := r.segs(s, []pend{{in, s.In, false}}, refEnv{})
+	cur := r.segs(s, []pend{{in, s.In, false, s.In}}, refEnv{})
 	return prefixEval{r, cur}
 }
 
@@ -482,6 +482,19 @@ func (g *tgen) genMapping(p pend) (*fmapSpec, ty) {
 	ft := p.Ty
 	taken := p.V
 	canFrom := p.Ty == tRec || p.Ty == tPtr || p.Ty == tMap
+	if x, ok := p.V.(map[string]any); ok && p.Ty == tMap && r.Prob(0.3) {
+		// a pointer under a key of a map, mapped onto the whole input of a pointer-typed successor
+		var ks []string
+		for _, k := range mon.SortedKeys(x) {
+			if _, isPtr := x[k].(*Rec); isPtr {
+				ks = append(ks, k)
+			}
+		}
+		if len(ks) > 0 {
+			m.From = mon.PickOne(r, ks)
+			return m, tPtr
+		}
+	}
 	if canFrom && r.Prob(0.7) {
 		switch x := p.V.(type) {
 		case map[string]any:
@@ -511,7 +524,7 @@ func (g *tgen) genMapping(p pend) (*fmapSpec, ty) {
 	// the target: the whole input, or a field / key of it
 	toWhole := m.From != "" && r.Prob(0.5)
 	if toWhole {
-		return m, g.chooseIn([]pend{{taken, ft, false}}, 0.85)
+		return m, g.chooseIn([]pend{{taken, ft, false, ft}}, 0.85)
 	}
 	// candidates (successor type, field) whose field type may take ft
 	type cand struct {
